@@ -239,7 +239,9 @@ def run_C09(ctx, rep):
              'inc_redecl_after', 'inc_redecl_before', 'inc_redecl_around', 'inc_agg', 'inc_agg_par', 'inc_lat',
              'inc_attr_mrt', 'inc_attr_to', 'inc_attr_irp', 'inc_attr_two')
     gen_driver.run_twins(ctx, rep, lambda n, k: n in names, floors={'T.C': 23})
-    gen_driver.run_gen(ctx, rep, ['G2G7', 'G8'], floors={'G7': 6, 'G8': 60})
+    # `ascent!` builds the indices in Default::default() (initialised relations) and again in run(), `ascent_run!` once: the two
+    # packagings agree only if re-indexing starts from empty indices (UI: G3.ui / G4.ui)
+    gen_driver.run_gen(ctx, rep, ['G2G7', 'G8', 'UI'], floors={'G7': 6, 'G8': 60, 'G4.ui': 500})
     # ascent_run!: the rules mean what their text says, captured locals included (they are constants of the rule)
     gen_driver.run_tv(ctx, rep, only_tags=['run'], floors={'R1': 10})
 
